@@ -106,13 +106,33 @@ func (r *run) create() {
 	_ = r.events()
 }
 
-func newRun(b, nc int, withSnap bool, dir string, id int, rng *rand.Rand) *run {
+// prefill pads a fresh snapshot file with comment lines (skipped by the snapshotter's replay) up to `below` bytes
+// under the compaction limit of 128 KiB, so that the lines the schedule makes the snapshotter append cross it.
+func prefill(path string, below int) {
+	const limit = 128 * 1024
+	var sb strings.Builder
+	line := "# verif padding " + strings.Repeat("x", 47) + "\n" // 64 bytes
+	for sb.Len()+len(line) <= limit-below {
+		sb.WriteString(line)
+	}
+	if rest := limit - below - sb.Len(); rest >= 2 {
+		sb.WriteString("#" + strings.Repeat("y", rest-2) + "\n")
+	}
+	if err := os.WriteFile(path, []byte(sb.String()), 0644); err != nil {
+		h.Die("prefill: %v", err)
+	}
+}
+
+func newRun(b, nc int, withSnap bool, fill int, dir string, id int, rng *rand.Rand) *run {
 	r := &run{net: quiet.NewNet(), b: b, withSnap: withSnap, dir: dir, qids: map[uint32]int{}, re: -1, rq: -1}
 	r.net.Capture = false
 	r.name = "self-" + strconv.Itoa(rng.Intn(1000))
 	r.cont = contents(nc, rng)
 	r.snap = filepath.Join(dir, fmt.Sprintf("snap-%d-0", id))
 	_ = os.Remove(r.snap)
+	if withSnap && fill > 0 {
+		prefill(r.snap, fill)
+	}
 	r.create()
 	return r
 }
@@ -333,6 +353,13 @@ func recorded(path string) (int, int) {
 			re, rq = -1, -1
 		}
 	}
+	// a compaction writes the clocks it holds, 0 when nothing was recorded: the same as no line at all
+	if re == 0 {
+		re = -1
+	}
+	if rq == 0 {
+		rq = -1
+	}
 	return re, rq
 }
 
@@ -471,7 +498,11 @@ func main() {
 		}
 		b := s.Steps[0].Int("b")
 		snap := s.Steps[0].Int("snap")
-		r := newRun(b, *nc, snap == 1, *dir, s.ID, rng)
+		fill := 0
+		if _, ok := s.Steps[0]["fill"]; ok {
+			fill = s.Steps[0].Int("fill")
+		}
+		r := newRun(b, *nc, snap == 1, fill, *dir, s.ID, rng)
 		tr.Reset(s.ID, map[string]interface{}{"b": b, "snap": snap})
 		for _, st := range s.Steps[1:] {
 			tr.Step(st, r.step(st))
